@@ -106,28 +106,48 @@ def sc_game_getters(M, n, c):
 
 
 @scenario
-def sc_game_bulk_getters(M, n, coalitions=None):
+def sc_game_bulk_getters(M, n, coalitions=None, kind="list"):
+    """kind: how the coalition argument is passed - the protocol declares Iterable[Coalition], so lists, tuples and
+    one-shot iterables (generator, map, iter) must all behave the same."""
     C = M.mod("coalitions").Coalition
     g, view = arbitrary_state(M, n)
     ids = list(range(1 << n)) if coalitions is None else list(coalitions)
-    arg = None if coalitions is None else [C(c) for c in ids]
-    kv = g.get_known_values(arg)
+
+    class _Arg:
+        """A fresh argument of the requested kind on every use."""
+        def __get__(self, *_):
+            if coalitions is None:
+                return None
+            if kind == "list":
+                return [C(c) for c in ids]
+            if kind == "tuple":
+                return tuple(C(c) for c in ids)
+            if kind == "generator":
+                return (C(c) for c in ids)
+            if kind == "map":
+                return map(C, ids)
+            return iter([C(c) for c in ids])
+
+    class _Holder:
+        arg = _Arg()
+    H = _Holder()
+    kv = g.get_known_values(H.arg)
     M.check("get_known_values.length", len(kv) == len(ids))
     for j, c in enumerate(ids):
         k, lo, up = view[c]
         M.check(f"get_known_values.nan_iff_unknown[{j}]", M.iff(M.is_nan(kv[j]), M.not_(k)))
         M.check(f"get_known_values.value[{j}]", M.implies(k, M.val(kv[j]) == lo))
     out = {}
-    raised = M.expect_raises((ValueError,), lambda: out.__setitem__("v", g.get_values(arg)))
+    raised = M.expect_raises((ValueError,), lambda: out.__setitem__("v", g.get_values(H.arg)))
     M.check("get_values.raises_iff_some_unknown", M.iff(raised, M.not_(M.and_(*[view[c][0] for c in ids]))))
     if not raised:
         M.check("get_values.length", len(out["v"]) == len(ids))
         for j, c in enumerate(ids):
             M.check(f"get_values.value[{j}]", M.val(out["v"][j]) == view[c][1])
-    ak = g.are_values_known(arg)
-    lb = g.get_lower_bounds(arg)
-    ub = g.get_upper_bounds(arg)
-    iv = g.get_intervals(arg)
+    ak = g.are_values_known(H.arg)
+    lb = g.get_lower_bounds(H.arg)
+    ub = g.get_upper_bounds(H.arg)
+    iv = g.get_intervals(H.arg)
     for j, c in enumerate(ids):
         M.check(f"are_values_known[{j}]", M.iff(M.val(ak[j]), view[c][0]))
         M.check(f"get_lower_bounds[{j}]", M.val(lb[j]) == view[c][1])
@@ -138,13 +158,17 @@ def sc_game_bulk_getters(M, n, coalitions=None):
 
 
 @scenario
-def sc_game_bulk_set(M, n, op, coalitions=None):
+def sc_game_bulk_set(M, n, op, coalitions=None, kind="list"):
     """set_values / set_known_values / set_upper_bounds / set_lower_bounds with a coalition list (distinct ids) or None."""
     C = M.mod("coalitions").Coalition
     np_ = M.mod("game").np
     g, view = arbitrary_state(M, n)
     ids = list(range(1 << n)) if coalitions is None else list(coalitions)
     arg = None if coalitions is None else [C(c) for c in ids]
+    if arg is not None and kind == "generator":
+        arg = (c for c in arg)
+    elif arg is not None and kind == "map":
+        arg = map(lambda c: c, arg)
     xs = [M.real(f"x{j}") for j in range(len(ids))]
     arr = np_.array(xs, dtype=np_.float64) if xs else np_.zeros(0)
     exp = dict(view)
